@@ -1,20 +1,19 @@
 #!/bin/bash
 # usage: tools/with_patch.sh <patch.diff> <command...>      e.g.  tools/with_patch.sh m.diff ./check C15 quick
-# Runs the command against a MUTATED COPY of the library, without touching /repo or /verif:
-#   scratch dir /tmp/verif-mut.XXXXXX/{repo = git worktree of /repo HEAD + patch, verif = copy of /verif without .build}
-# The command runs with cwd = the copied /verif and VERIF_REPO pointing at the patched tree, so every check builds the
-# mutated library into its own .build (full build: 1-3 min per flavour). Several mutation runs may go on in parallel.
-# Replay files of the run are copied to /verif/.build/work/mut-replays/. Exit status = that of the command.
+# Runs the command against a MUTATED COPY of the library without touching the real /repo or /verif:
+#   /tmp/verif-mut.XXXXXX/repo  = copy of /repo's working tree (mtimes preserved) + the patch
+#   /tmp/verif-mut.XXXXXX/verif = copy of /verif including its build trees
+# and bind-mounts the two copies over /repo and /verif inside a private mount namespace (unshare -m), so that all
+# paths are the usual ones and ninja / make rebuild only what the patch touched (seconds to a few minutes).
+# Several mutation runs may go on in parallel. Replay files are copied to /verif/.build/work/mut-replays/.
+# Exit status = that of the command.
 P=$(readlink -f "$1"); shift
-ROOT=$(cd "$(dirname "$0")/.." && pwd)
 W=$(mktemp -d /tmp/verif-mut.XXXXXX)
-cleanup() { git -C /repo worktree remove --force "$W/repo" >/dev/null 2>&1; rm -rf "$W"; git -C /repo worktree prune >/dev/null 2>&1; }
-trap cleanup EXIT
-git -C /repo worktree add -q --detach "$W/repo" HEAD || { echo "with_patch: cannot create worktree" >&2; exit 97; }
-git -C "$W/repo" apply "$P" || { echo "with_patch: patch does not apply to /repo HEAD" >&2; exit 98; }
-mkdir -p "$W/verif"
-rsync -a --exclude .build --exclude replays --exclude .git "$ROOT/" "$W/verif/"
-cd "$W/verif"
-VERIF_REPO="$W/repo" VERIF_HAVE_REPO_LOCK=1 "$@"; rc=$?
-mkdir -p "$ROOT/.build/work/mut-replays"; cp -r "$W/verif/replays/." "$ROOT/.build/work/mut-replays/" 2>/dev/null
+trap 'rm -rf "$W"' EXIT
+mkdir -p "$W/repo" "$W/verif"
+rsync -a --exclude _build --exclude .git /repo/ "$W/repo/"
+( cd "$W/repo" && git apply --unsafe-paths "$P" 2>/dev/null || patch -p1 -s < "$P" ) || { echo "with_patch: patch does not apply to /repo" >&2; exit 98; }
+rsync -a --exclude replays --exclude .git --exclude '.build/work/mut-replays' /verif/ "$W/verif/"
+unshare -m bash -c 'mount --bind "$0/repo" /repo && mount --bind "$0/verif" /verif && cd /verif && VERIF_HAVE_REPO_LOCK=1 exec "$@"' "$W" "$@"; rc=$?
+mkdir -p /verif/.build/work/mut-replays; cp -r "$W/verif/replays/." /verif/.build/work/mut-replays/ 2>/dev/null
 exit $rc
